@@ -265,7 +265,7 @@ package sftp
 //@ ghost var lastID uint32
 
 //@ func (*Client).nextID
-//@   property C03
+//@   property C03, C15
 //@   requires c != nil
 //@   update after call atomic.AddUint32#1: ghost.idFresh = true
 //@   update after call atomic.AddUint32#1: ghost.lastID = ret
@@ -1858,7 +1858,7 @@ package sftp
 // C12: File keeps os.File's offset and closed-state semantics
 
 //@ func (*File).Read
-//@   property C12, C01
+//@   property C12, C01, C15
 //@   results n, err
 //@   requires fileOK(f) && f.offset >= 0 && f.offset <= 0x3fffffffffffffff && len(b) <= 0x3fffffffffffffff
 //@   assert before call (*File).readAt#1: arg2 == f.offset && arg1 == b && locked(&f.mu)
@@ -1866,7 +1866,7 @@ package sftp
 //@   ensures old(f.handle) == "" ==> err == os.ErrClosed && n == 0
 
 //@ func (*File).Write
-//@   property C12, C01
+//@   property C12, C01, C15
 //@   results n, err
 //@   requires fileOK(f) && f.offset >= 0 && f.offset <= 0x3fffffffffffffff && len(b) <= 0x3fffffffffffffff
 //@   assert before call (*File).writeAt#1: arg2 == f.offset && arg1 == b && locked(&f.mu)
@@ -1874,7 +1874,7 @@ package sftp
 //@   ensures old(f.handle) == "" ==> err == os.ErrClosed && n == 0 && ghost.lastID == old(ghost.lastID)
 
 //@ func (*File).ReadAt
-//@   property C12, C01
+//@   property C12, C01, C15
 //@   results n, err
 //@   requires fileOK(f) && off >= 0 && off <= 0x3fffffffffffffff && len(b) <= 0x3fffffffffffffff
 //@   assert before call (*File).readAt#1: arg2 == off && arg1 == b && rlocked(&f.mu)
@@ -1882,7 +1882,7 @@ package sftp
 //@   ensures old(f.handle) == "" ==> err == os.ErrClosed && n == 0
 
 //@ func (*File).WriteAt
-//@   property C12, C01
+//@   property C12, C01, C15
 //@   requires fileOK(f) && off >= 0 && off <= 0x3fffffffffffffff && len(b) <= 0x3fffffffffffffff
 //@   assert before call (*File).writeAt#1: arg2 == off && arg1 == b && rlocked(&f.mu)
 //@   ensures f.offset == old(f.offset) && f.handle == old(f.handle)
